@@ -180,3 +180,64 @@ Proof.
 Qed.
 
 End ZeroJitter.
+
+(* ------------------------------------------------------------------ balanced histories of __enter__ / __exit__ *)
+Section Histories.
+Variable F : Type.
+Notation context := (context F).
+
+(* well-nested sequences; the SAME object may occur again inside its own bracket (re-entrant use) or later (re-use) *)
+Inductive balanced : list event -> Prop :=
+| bal_nil : balanced []
+| bal_app w1 w2 : balanced w1 -> balanced w2 -> balanced (w1 ++ w2)
+| bal_wrap k w : balanced w -> balanced (Enter k :: w ++ [Exit k]).
+
+Lemma restore_enter (c : context) (st : settings F) : restore c st (enter st c) = st.
+Proof. destruct c, st; reflexivity. Qed.
+
+Lemma run_app (objs : list context) w e1 e2 : run objs w (e1 ++ e2) = run objs (run objs w e1) e2.
+Proof. unfold run. apply fold_left_app. Qed.
+
+Lemma run_length (objs : list context) evs : forall st stacks, length (snd (run objs (st, stacks) evs)) = length stacks.
+Proof.
+  induction evs as [|e r IH]; intros st stacks; [reflexivity|].
+  unfold run in *. cbn [fold_left]. destruct e as [k|k]; cbn [step].
+  - destruct (nth_error objs k); [rewrite IH, upd_nth_length; reflexivity|apply IH].
+  - destruct (nth_error objs k); [|apply IH].
+    destruct (nth k stacks []); [apply IH|rewrite IH, upd_nth_length; reflexivity].
+Qed.
+
+(* after a balanced history the global settings AND every object's stack are exactly what they were: for any nesting depth,
+   any mixture of objects, the same object any number of times *)
+Lemma run_balanced (objs : list context) evs : balanced evs ->
+  forall st stacks, length objs <= length stacks -> run objs (st, stacks) evs = (st, stacks).
+Proof.
+  induction 1 as [|w1 w2 _ IH1 _ IH2|k w _ IH]; intros st stacks Hl.
+  - reflexivity.
+  - rewrite run_app, IH1, IH2; auto.
+  - change (Enter k :: w ++ [Exit k]) with ([Enter k] ++ w ++ [Exit k]). rewrite !run_app.
+    unfold run at 3. cbn [fold_left step].
+    destruct (nth_error objs k) as [c|] eqn:Ec.
+    + assert (Hk : k < length stacks).
+      { apply Nat.lt_le_trans with (length objs); [|exact Hl]. apply nth_error_Some. congruence. }
+      rewrite IH by (rewrite upd_nth_length; exact Hl).
+      unfold run. cbn [fold_left step]. rewrite Ec.
+      rewrite nth_upd_nth_eq by exact Hk. rewrite restore_enter, upd_nth_comp.
+      f_equal. apply upd_nth_same. reflexivity.
+    + rewrite IH by exact Hl. unfold run. cbn [fold_left step]. rewrite Ec. reflexivity.
+Qed.
+
+End Histories.
+
+Section CallAfterHistory.
+Variable F : Type.
+Variable ar : Arith F.
+Variable chol_ex : matrix F -> matrix F * nat.
+
+Lemma psc_after_balanced (objs : list (context F)) evs st stacks d32 dt n A upper jitter max_tries :
+  balanced evs -> length objs <= length stacks ->
+  psc ar chol_ex (fst (run objs (st, stacks) evs)) d32 dt n A upper jitter max_tries
+  = psc ar chol_ex st d32 dt n A upper jitter max_tries.
+Proof. intros H1 H2. rewrite (run_balanced F objs evs H1 st stacks H2). reflexivity. Qed.
+
+End CallAfterHistory.
